@@ -17,6 +17,7 @@ class Profile:
     quick_budget = 60
     thorough_budget = 600
     masks = ()
+    tier = "quick"
     assumptions = [
         "reference model (nixsim/model.py) and walkers are correct renderings of the property text",
         "SimDisk content at an instant equals what the OS holds after a process kill at that instant "
@@ -32,6 +33,10 @@ class Profile:
 
     def masked(self, name):
         return name in self.masks
+
+    def evidence_extra(self, stats):
+        """profile-specific coverage figures derived from the aggregated counters."""
+        return {}
 
     # ---------------------------------------------------------------- knobs (swarm)
     def draw_knobs(self, rng):
@@ -65,6 +70,11 @@ class Profile:
         n_off = rng.randint(0, max(0, len(fams) // 3))
         k["off"] = sorted(rng.sample(fams, n_off)) if n_off else []
         self.tune_knobs(k, rng)
+        if self.tier == "thorough" and rng.random() < 0.5:
+            # deeper bounds in the thorough tier: longer histories, more entities per container
+            k["n_ops"] = min(90, int(k["n_ops"] * rng.choice([1.5, 2, 2.5])))
+            k["max_per"] = k["max_per"] + rng.randint(0, 3)
+            k["deep"] = True
         return k
 
     def tune_knobs(self, k, rng):
